@@ -16,20 +16,27 @@ CLAIM_TEXT = {
             'bytes, that every style a builder offers satisfies the writer\'s precondition, and that a default exists for '
             'every string (unbounded). Kani proves the parser\'s byte-class tables equal the ABNF classes for all 256 bytes.',
             '4 V1, K1'),
-    'C04': ('absence of overflow, out-of-bounds, bad str slicing, failed unwrap and non-termination in every function under '
-            'contract: Verus units unbounded (V1, V3, V4), Kani units for their stated fixed input widths.', '4, 5 C04'),
+    'C04': ('absence of overflow, out-of-bounds, bad str slicing, failed unwrap / unreachable and non-termination in every '
+            'function under contract: Verus units unbounded (V1 string writer, V3 recursion counter, V4 slices, V5 '
+            'Datetime::from_str, V6 date-time printer, V7 secfrac closure), Kani units for their stated fixed input widths.', '4, 5 C04'),
     'C11': ('Kani, complete over the full machine domain: the float overflow guard (closure extracted from fn float each '
-            'run) rejects both infinities and no finite value; u64 -> i64 conversions of every serializer/visitor are '
-            'checked for all u64.', '4 K6 K7'),
-    'C01': ('decided slices only: every byte class (complete), every date/time field range and the calendar rule, escape '
-            'grammar and scalar range, float overflow guard with either sign. Composition of productions is not decided.',
+            'run) rejects both infinities and no finite value; u64/i128/u128 -> i64 conversions of every serializer/visitor '
+            'and narrowing on input are exact or an error for every value. Verus (V8): every integer-literal base goes '
+            'through the checked signed conversion (under an assumed from_str_radix contract).', '4 K6 K7 V8'),
+    'C01': ('decided slices only: every byte class (complete), every 2-digit date/time field range and the calendar rule, '
+            'hex-escape scalar range (thorough), float overflow guard with either sign, integer literals beyond i64 '
+            'rejected in every base (V8, assumed from_str_radix). Composition of productions is not decided.',
             '5 C01'),
-    'C02': ('value of each 2/4-digit date-time field, secfrac truncation, escape -> scalar mapping, for every input of the '
-            'stated fixed width.', '5 C02'),
+    'C02': ('value of each 2/4-digit date-time field of the document grammar (per fixed width); fractional seconds '
+            'truncated to nanoseconds for every digit string (V7, document grammar; V5, standalone parser); every field of '
+            'the standalone parser for every string (V5); integer literal values (V8); hex escapes (thorough).', '5 C02'),
     'C05': ('recursion counter contract (Verus, unbounded): limit <= 128, enter/exit balance, limit enforced exactly at the '
             'bound; Kani: check_recursion leaves the counter balanced.', '4 V3'),
-    'C12': ('standalone Datetime::from_str == spec on every string of each date-time shape (Kani, complete per shape '
-            'width); document grammar field parsers and calendar rule == same spec. Printer clause undecided.', '4 K2 K3 V4'),
+    'C12': ('Verus, unbounded: Datetime::from_str accepts exactly the date-time grammar and yields its fields on EVERY '
+            'string (V5); the printer emits, for every well-formed value, text the grammar accepts with that same value '
+            '(V6), hence print-then-parse is the identity; calendar rule and range checks of both parsers (V4); document '
+            'secfrac truncation (V7). Kani: the same standalone contract in situ per input width (K3), document-grammar '
+            'field parsers (K2).', '4 V4 V5 V6 V7 K2 K3'),
     'C14': ('serde span bridge delivers (start, end, value) unswapped for every span and value (Kani, loop-free, complete).',
             '4 K11'),
     'C15': ('translate_position == (line, char column) spec with clamping, for every valid UTF-8 input up to the stated '
@@ -44,7 +51,9 @@ NOTE = {
     'C01': 'assumed: winnow combinators; composition of productions, cut_err placement, table-definition rules not decided.',
     'C02': 'floats (std dec2flt), multi-line trimming, key order, tree shape not decided.',
     'C05': 'stack consumption itself is not expressible; multiplicative nesting across constructs not decided.',
-    'C12': 'printer clause (core::fmt) and composition of the document grammar date_time production not decided.',
+    'C12': 'assumed: contracts for Chars::{as_str, clone, nth}, u32::pow, char::is_ascii_digit, &str[range], {:0N} '
+           'formatting, trim_end_matches, parse::<u32>; composition of the document grammar date_time production and the '
+           'serde date-time tunnel not decided.',
     'C14': 'span production inside the parser and despan are tree-level and not decided.',
     'C15': 'bounded input length; rest of Display for TomlError goes through core::fmt and is not decided.',
 }
